@@ -356,7 +356,7 @@ def gsnap(g):
     return [g.name, list(g.target), None if g.control is None else list(g.control), repr(g.parameter), bool(g.is_variational)]
 
 
-@part("gates", quick=2400, thorough=100000)
+@part("gates", quick=2000, thorough=200000)
 def gates_part(ctx):
 
     def body_eq(case):
@@ -412,7 +412,7 @@ def gates_part(ctx):
 
 # ------------------------------------------------------------------------------------------------ part 2: inverse/copy/+/*
 
-@part("algebra", quick=1600, thorough=60000)
+@part("algebra", quick=1600, thorough=150000)
 def algebra_part(ctx):
     from tangelo.linq import Circuit
     mw, mg = (5, 14) if ctx.tier == "quick" else (6, 24)
@@ -573,7 +573,7 @@ def pass_body(case):
     return changed or big_ctrl_rot(recs) or "index-gaps" in labels, labels
 
 
-@part("passes", quick=6400, thorough=200000)
+@part("passes", quick=4800, thorough=600000)
 def passes_part(ctx):
     mw, mg = (5, 14) if ctx.tier == "quick" else (6, 24)
     for op, form in PASS_SEARCHES:
@@ -590,7 +590,7 @@ def model_tracked(case):
     return sorted(used)
 
 
-@part("layout", quick=2400, thorough=80000)
+@part("layout", quick=2000, thorough=200000)
 def layout_part(ctx):
     from tangelo.linq import stack as stack_fn
     mt = 6 if ctx.tier == "quick" else 7
@@ -758,7 +758,7 @@ def trivial_cases(draw):
     return {"gates": seq, "nq": nq}
 
 
-@part("trim_trivial", quick=600, thorough=20000)
+@part("trim_trivial", quick=600, thorough=50000)
 def trim_trivial_part(ctx):
     from tangelo.toolboxes.operators.trim_trivial_qubits import trim_trivial_circuit
 
